@@ -63,6 +63,18 @@ func VerifyFunc(P *Program, DB *SpecDB, fn *ssa.Function, ct *Contract) (res *Fu
 	p2.writes = p1.writes
 	p2.setup(fn, key, ct)
 	p2.runTop()
+	for k, as := range ct.Asserts {
+		// a program-point clause whose anchor matches no line of the function binds to
+		// nothing: say so instead of silently proving nothing
+		label := as.Name
+		if label == "" {
+			label = fmt.Sprintf("%d", k+1)
+		}
+		seen := p2.counters["assert-at#"+label]
+		if seen == 0 || as.AtN != 0 && seen < as.AtN {
+			panic(toolErr(fmt.Sprintf("assert [%s]: no source line of the function matches its anchor %q (occurrence %d)", label, as.At, as.AtN)))
+		}
+	}
 	script := &Script{Preamble: S.Preamble(), Lines: p2.lines}
 	opaqueFloats(script, p2.obls)
 	for _, o := range p2.obls {
